@@ -521,7 +521,9 @@ def gen_merge(rng, label=None, backup=None, mode=None):
 # ----------------------------------------------------------------------
 PLAINTEXTS = ["s3cret", "pass word", "x", "0", "a much longer secret value "
               "that spans more than one block line when wrapped",
-              "ENC[looks-like]", "true", "p@$$:w0rd#1"]
+              "ENC[looks-like]", "true", "p@$$:w0rd#1",
+              "two\nlines", "-----BEGIN CERT-----\r\nQUJDREVGRw==\r\n"
+              "-----END CERT-----", "tab\there"]
 NEAR_MISS = ["ENC (not)", "xENC[PKCS7,abc]", "enc[PKCS7,abc]",
              "see ENC[ later", "ENCRYPTED"]
 
@@ -587,6 +589,27 @@ class SecretDocGen:
             node.clear()
             node.update(new)
             planted.append((segs, node))
+        # a second, distinct collection with equal content (hence the very
+        # same ciphertext): duplicated records are common in real files
+        if planted and rng.random() < 0.2:
+            import copy
+            segs, node = rng.choice(planted)
+            if len(segs) >= 2 and not node.get("a"):
+                holder = doc
+                for kind, ref in segs[:-1]:
+                    if kind == "i":
+                        holder = holder["i"][ref]
+                    else:
+                        holder = next(v for k, v in holder["i"]
+                                      if k["v"] == ref)
+                if not any(n["t"] == "*" or n.get("a")
+                           for _s, n in gd.positions(holder)):
+                    twin = copy.deepcopy(holder)
+                    if doc["t"] == "m":
+                        doc["i"].append([gd.S("twin"), twin])
+                    else:
+                        doc["i"].append(twin)
+                    self.secrets.append(node["secret"])
         # aliases to anchored secrets, placed later in document order
         for segs, node in planted:
             if not node.get("a"):
